@@ -391,7 +391,7 @@ class Runner:
     def op_POST(self, st):
         coll = SLOTS[st["coll"]]
         body = body_of(st)
-        r = self.req(st["fe"], "POST", coll + "/", [("Content-Type", st["ctype"])], body)
+        r = self.req(st["fe"], "POST", coll + ("/" if st.get("slash", True) else ""), [("Content-Type", st["ctype"])], body)
         ack = dav.acknowledged(r)
         self.last = {"op": "POST", "ack": ack, "resp": r, "coll": coll, "body": body}
         self._expect_noack_into_missing(ack, coll, "POST")
@@ -406,6 +406,13 @@ class Runner:
                 self.violation("content", "post-without-location", f"POST acknowledged ({r.status}) without Location")
             name = name_from_href(loc)
             mc = self.model.colls[coll]
+            # the acknowledgement names the new member: it must lie in the collection that was addressed
+            pre = self.world.prefix.rstrip("/")
+            lp = dav.href_path(loc) or ""
+            if loc and posixpath.dirname((lp[len(pre):] if pre and lp.startswith(pre + "/") else lp).rstrip("/")) != coll:
+                self.violation("content", "post-location-outside-collection", f"POST to {coll}{'/' if st.get('slash', True) else ''} acknowledged ({r.status}) with Location {loc!r}, which is not a member of {coll}")
+            if not st.get("slash", True):
+                self.stats["post:slashless"] += 1
             if name in mc.members:
                 self.violation("content", "post-reused-name", f"POST created {name!r} which already existed")
             mc.members[name] = MMember(body, st["ctype"], 1)
@@ -859,6 +866,18 @@ class Runner:
         self.last = {"op": "RESTART", "ack": False}
         return set(self.model.colls)
 
+    def op_REMOUNT(self, st):
+        """The same application object is reached under another route prefix (a WSGI application mounted at
+        two places gets its SCRIPT_NAME per request; the aiohttp handler takes the prefix per call)."""
+        if self.world.aio is not None:
+            self.world.aio.stop()
+            self.world.aio = None
+        p = st["prefix"]
+        self.world.prefix = p if p.endswith("/") else p + "/"
+        self.stats["remounts"] += 1
+        self.last = {"op": "REMOUNT", "ack": False}
+        return set()
+
     def note5xx(self, st, r):
         key = f"{st['op']}:{(r.exc or '')[:100] or r.body[:80]!r}"
         self.stats["5xx:" + key] += 1
@@ -887,9 +906,20 @@ class Runner:
         desc = f"{method} {coll}/{name} via {st.get('fe')} with {chdrs} (resource {'exists, ETag ' + str(cur) if exists else 'absent'})"
         if method in ("PUT", "DELETE"):
             if not decided:
-                if not passes and ack and False:
-                    pass
-                return  # either "not matching" or 400 allowed; "no-ack => no change" is checked by the audit
+                # either "not matching" or 400 is allowed for a malformed value.  What the statement still
+                # rules out: an If-Match request is "executed only if the resource currently exists with one of
+                # the listed ETags (or '*')".  A malformed If-Match that names the current ETag under *no*
+                # reading (quotes / weak prefix stripped from every item) and carries no '*' lists nothing
+                # that matches - an empty value lists nothing at all - so it must not be executed.
+                im = [v for k, v in chdrs if k.lower() == "if-match"]
+                if im and ack:
+                    core = lambda x: x.strip(" \t").removeprefix("W/").strip('"')
+                    items = [x for v in im for x in v.split(",")]
+                    loose = exists and any(x.strip(" \t") == "*" or (cur is not None and core(x) != "" and core(x) == core(cur)) for x in items)
+                    self.stats["cond:malformed-if-match-executed-checked"] += 1
+                    if not loose:
+                        self.violation("cond", f"{method.lower()}-malformed-if-match-executed", f"{desc}: If-Match lists nothing that could denote the current ETag, but the request was executed ({r.status})")
+                return  # "no-ack => no change" is checked by the audit
             if not passes:
                 if method == "DELETE" and not exists and r.status == 404:
                     return
